@@ -6,9 +6,9 @@ package sim
 
 import (
 	"context"
-	"os"
 	"fmt"
 	"io"
+	"os"
 	"time"
 
 	"github.com/streamingfast/bstream"
@@ -116,16 +116,17 @@ type StreamObserver interface {
 }
 
 type simStream struct {
-	env      *Env
-	node     string
-	h        bstream.Handler
-	pipe     *pipeline.Pipeline
-	start    uint64
-	stop     uint64
-	finalMax uint64 // blocks <= finalMax are delivered new+final from "files"
-	tier2    bool
-	obs      StreamObserver
-	yield    bool
+	env       *Env
+	node      string
+	h         bstream.Handler
+	pipe      *pipeline.Pipeline
+	start     uint64
+	stop      uint64
+	finalMax  uint64 // blocks <= finalMax are delivered new+final from "files"
+	tier2     bool
+	finalOnly bool
+	obs       StreamObserver
+	yield     bool
 }
 
 func unwrapPipeline(h bstream.Handler) *pipeline.Pipeline {
@@ -200,9 +201,11 @@ func (s *simStream) Run(ctx context.Context) error {
 			libRef = b.Ref()
 		}
 		ref := b.Ref()
-		obj := &stepObj{step: bstream.StepNew, cursor: &bstream.Cursor{Step: bstream.StepNew, Block: ref, LIB: libRef, HeadBlock: ref}}
-		if err := s.deliver(b, obj); err != nil {
-			return err
+		if !s.finalOnly { // a final-blocks-only stream never shows reversible steps
+			obj := &stepObj{step: bstream.StepNew, cursor: &bstream.Cursor{Step: bstream.StepNew, Block: ref, LIB: libRef, HeadBlock: ref}}
+			if err := s.deliver(b, obj); err != nil {
+				return err
+			}
 		}
 		if n >= c.ConfDepth {
 			fn := n - c.ConfDepth
